@@ -53,7 +53,7 @@ fn run_long_haul(c: &LongHaul) -> CaseResult {
     let mut submitted: u32 = 0;
     // (phase B uses Unreliable packets only: retransmissions would keep the sender from ever being silent)
     let phase_b = std::cell::Cell::new(false);
-    let mut tick = |sim: &mut SimPair, dt_us: u64, count: u32, submitted: &mut u32| {
+    let tick = |sim: &mut SimPair, dt_us: u64, count: u32, submitted: &mut u32| {
         let mut sends = Vec::with_capacity(count as usize);
         for _ in 0..count {
             let i = *submitted;
